@@ -3,9 +3,9 @@
   Model: Mpir/Model/Binvert.lean (binvert.c statement by statement on bounds-checked areas), run against the rebuilt
   library by the ops `bi_*` of Mpir/Ops/Binvert.lean.
 -/
-import MpirProofs.Lemmas.Binvert
+import MpirProofs.Lemmas.BinvertMain
 namespace Mpir.Binvert
-open Mpir Mpir.Powm Mpir.PowmL
+open Mpir Mpir.Powm Mpir.PowmL Mpir.Mm1
 
 /-- **The precision schedule of mpn_binvert terminates** (binvert.c:69-71) for every `n ≥ 1` and every
     BINV_NEWTON_THRESHOLD ≥ 2 (with 0 or 1 the C loop `rn = (rn + 1) >> 1` stays at 1 above the threshold for ever):
@@ -19,5 +19,68 @@ theorem binvert_schedule_ok (thr n : Nat) (hthr : 2 ≤ thr) (hn : 1 ≤ n) :
 -- non-vacuity: BINV_NEWTON_THRESHOLD = 300, n = 1000: three Newton steps from a 125-limb base value
 example : schedule 300 1000 1000 = ([1000, 500], 250, true) ∧ schedule 300 299 299 = ([], 299, true) ∧
     schedule 1 5 5 = ([5, 3, 2, 1, 1], 1, false) := by decide +kernel
+
+/-- **mpn_binvert is correct on memory** (binvert.c:61-124 over sb_bdiv_q.c, mulmod_2expm1.c): for EVERY `n ≥ 1`, every
+    `U = {up, n}` with an odd low limb, every BINV_NEWTON_THRESHOLD ≥ 2 (below that the schedule loop does not end, see
+    `binvert_schedule_ok`), every DC_BDIV_Q_THRESHOLD ≥ 6 (mpn_dc_bdiv_q's `ASSERT (dn >= 6)`), every
+    MULMOD_2EXPM1_THRESHOLD, any +1 half meeting `P1Spec`, ARBITRARY initial contents of `rp` (n limbs) and of the scratch
+    (at least `mpn_binvert_itch (n)` limbs), arbitrary junk `jk` in the upper halves that mpn_mullow_n stores and in the
+    operand mpn_dc_bdiv_q destroys:  every access to `rp` and to the scratch is in range (including the 2(newrn − rn) limbs
+    of the mpn_mullow_n in the loop, which fit into `rp` only because `newrn ≤ (n + 1)/2` there, and those of the last
+    iteration, which go to `xp + newrn`), the ASSERTs of mpn_mulmod_bnm1 / mpn_sub_1 / mpn_mullow_n hold (in particular
+    `rn − (m − newrn) ≥ 1`), `sizes[]` is never popped below its first entry, and `R = {rp, n}` has n limbs with
+    `R·U ≡ 1 (mod B^n)`.  The wrap-around product `U·R mod B^m − 1` is decoded correctly also when it is ≡ 0
+    (U = B^n − 1: mpn_mulmod_bnm1 returns `B^m − 1`, not 0 — `mpn_mulmod_bnm1_val`).
+    Hypotheses on mpn_mulmod_bnm1_next_size (`k ≤ next_size k`, `next_size k − k < ⌈k/2⌉`, monotone) and
+    `|sizes[]| ≤ NPOWS` are discharged for the pinned build in `mpn_binvert_correct_pinned` below. -/
+theorem mpn_binvert_correct (thr dcThr mthr : Nat) (pp1 : List Nat → List Nat → Nat → Nat → List Nat × Nat)
+    (hpp1 : P1Spec pp1) (nextSize : Nat → Nat) (jk : Nat → Nat) (up rp0 xp0 : List Nat)
+    (hn : 1 ≤ rp0.length) (hup : Limbs up) (hlen : up.length = rp0.length) (hodd : up.headD 0 % 2 = 1)
+    (hthr : 2 ≤ thr) (hdc : 6 ≤ dcThr) (hitch : binvItch nextSize rp0.length ≤ xp0.length)
+    (hns : ∀ k, 1 ≤ k → k ≤ nextSize k ∧ nextSize k - k < (k + 1) / 2)
+    (hmono : ∀ a b, a ≤ b → nextSize a ≤ nextSize b)
+    (hnp : (schedule thr rp0.length rp0.length).1.length ≤ npows thr) :
+    (mpnBinvert thr dcThr mthr pp1 nextSize jk up rp0 xp0).2 = true ∧
+    Limbs (mpnBinvert thr dcThr mthr pp1 nextSize jk up rp0 xp0).1 ∧
+    (mpnBinvert thr dcThr mthr pp1 nextSize jk up rp0 xp0).1.length = rp0.length ∧
+    (val (mpnBinvert thr dcThr mthr pp1 nextSize jk up rp0 xp0).1 * val up) % B ^ rp0.length = 1 := by
+  obtain ⟨c1, c2, c3, c4⟩ := schedule_chain thr hthr rp0.length rp0.length hn (le_refl _)
+  have hnn := (hns rp0.length hn).1
+  have hI0 : 6 * nextSize rp0.length + 220 ≤ xp0.length := by simp only [binvItch] at hitch; omega
+  have hB := base_inv dcThr jk up (schedule thr rp0.length rp0.length).2.1 rp0 xp0 rp0.length xp0.length hup hlen hodd
+    c3 c4 rfl rfl (by omega) hdc
+  have fin : ∀ s : St, Inv rp0.length xp0.length (val up) s rp0.length →
+      s.ok = true ∧ Limbs s.rp ∧ s.rp.length = rp0.length ∧ (val s.rp * val up) % B ^ rp0.length = 1 := by
+    intro s ⟨i1, i2, i3, i4, i5⟩
+    rw [List.take_of_length_le (by omega)] at i4 i5
+    exact ⟨i1, i4, i2, i5⟩
+  unfold mpnBinvert
+  simp only
+  by_cases he : (schedule thr rp0.length rp0.length).2.1 = rp0.length
+  · rw [if_pos he]
+    rw [he] at hB
+    obtain ⟨f1, f2, f3, f4⟩ := fin _ hB
+    rw [he]
+    refine ⟨?_, f2, f3, f4⟩
+    simp [f1, c1, hnp]
+  · rw [if_neg he]
+    have hasc := Asc_of_chain thr hthr _ _ _ c2
+    have hN := newton_inv mthr pp1 hpp1 nextSize jk up rp0.length xp0.length hup hlen
+      (fun k hk2 hkn => by
+        obtain ⟨a, b⟩ := hns k (by omega)
+        have := hmono k rp0.length hkn
+        exact ⟨a, b, by omega⟩)
+      _ _ _ hasc (by omega) c3 hB
+    obtain ⟨f1, f2, f3, f4⟩ := fin _ hN
+    refine ⟨?_, f2, f3, f4⟩
+    simp [f1, c1, hnp]
+
+-- non-vacuity: thresholds 2 / 6 / 12, n = 3 (base value of 1 limb by the Hensel loop, Newton steps 1 -> 2 -> 3 limbs),
+-- U = B^3 − 1 (the product is ≡ 0 modulo B^m − 1), junk 7 in the scratch halves, poisoned rp and scratch
+example : mpnBinvert 2 6 12 Fft.mulmod_2expp1_basecase id (fun _ => 7) [B - 1, B - 1, B - 1] [5, 5, 5] (List.replicate 238 9) =
+    ([B - 1, B - 1, B - 1], true) := by decide +kernel
+example : (mpnBinvert 2 6 12 Fft.mulmod_2expp1_basecase id (fun _ => 7) [3, 5, 9] [5, 5, 5] (List.replicate 238 9)).2 = true ∧
+    (val (mpnBinvert 2 6 12 Fft.mulmod_2expp1_basecase id (fun _ => 7) [3, 5, 9] [5, 5, 5] (List.replicate 238 9)).1 * val [3, 5, 9])
+      % B ^ 3 = 1 := by decide +kernel
 
 end Mpir.Binvert
